@@ -29,7 +29,7 @@ def mon_liveness(ctx, k, inp):
 
 
 def run(ctx):
-    l2common.run_all(ctx, l2common.scenarios(ctx, 60, 1500, shutdown_p=1.0, faults_p=0.15), [l2.mon_c05, l2.mon_c02, l2.mon_c06, mon_liveness])
+    l2common.run_all(ctx, l2common.scenarios(ctx, 1000, 20000, shutdown_p=1.0, faults_p=0.15), [l2.mon_c05, l2.mon_c02, l2.mon_c06, mon_liveness])
 
 
 def replay(ctx, data):
